@@ -22,7 +22,8 @@ RAISES = ['exc', 'exc', 'base', 'kbd']      # Exception subclass / custom BaseEx
 
 def gen_call(rng, case, tags, depth=0, kinds=None):
     cls = case['cls']
-    kinds = kinds or ['ev'] * 11 + ['trig'] * 2 + ['add_transition'] * 2 + ['add_states'] + ['set_state'] * 2 + ['remove_model'] * 2
+    kinds = kinds or ['ev'] * 11 + ['trig'] * 2 + ['dispatch'] * 3 + ['add_transition'] * 2 + ['add_states'] + ['set_state'] * 2 \
+        + ['get_state'] + ['remove_model'] * 2
     kind = rng.choice(kinds)
     if kind == 'ev' and cls != 'flat' and rng.random() < 0.35:
         kind = 'trig'       # by-name entry point (model.trigger(name)) next to model.<event>()
@@ -47,6 +48,18 @@ def gen_call(rng, case, tags, depth=0, kinds=None):
             sc['snap'] = rng.choice(SNAPS)
             if depth < 2 and not sc['sub'] and rng.random() < 0.5:
                 sc['sub'].append(gen_call(rng, case, tags, depth + 1))
+    elif kind == 'dispatch':
+        call['args'] = [rng.choice(['go', 'back', 'sync', 'sync', 'to_A', 'to_B'])]
+        for _ in range(rng.choice([0, 1, 1, 2])):
+            # callbacks of the 1st / 2nd / 3rd model's part of the dispatch re-enter the API or raise
+            k = str(rng.randrange(9))
+            sc = call['script'].setdefault(k, {'sub': [], 'raise': False})
+            if depth < 2 and rng.random() < 0.5:
+                sc['sub'].append(gen_call(rng, case, tags, depth + 1, kinds=['ev', 'trig', 'set_state']))
+            elif rng.random() < 0.3:
+                sc['raise'] = rng.choice(RAISES)
+    elif kind == 'get_state':
+        call['args'] = [rng.choice(names + ['D'])]
     elif kind == 'add_transition':
         call['args'] = [rng.choice(['go', 'back']), rng.choice(names + ['D']), rng.choice(names + ['D'])]
     elif kind == 'add_states':
@@ -380,6 +393,16 @@ CORPUS += [
 ]
 
 
+CORPUS += [
+    # machine.dispatch is ONE locked call: the event on every model, processed in one window; another thread's event
+    # cannot be processed between two models; `sync` has a condition on the peer model's state (order-sensitive)
+    {'cls': 'flat', 'base': [], 'nmodels': 3, 'ignore': True, 'queued': False, 'extras': {'0': [], '1': [['user', 5]], '2': []},
+     'dyn': [], 'threads': [[_c(1, 'dispatch', ['sync'])], [_c(2, 'ev', [1, 'go'])], [_c(3, 'ev', [2, 'go'])]]},
+    {'cls': 'hsm', 'base': [['lock', 1]], 'nmodels': 2, 'ignore': True, 'queued': False, 'extras': {'0': [], '1': []},
+     'dyn': [], 'threads': [[_c(1, 'dispatch', ['go']), _c(2, 'dispatch', ['sync'])], [_c(3, 'trig', [1, 'go']), _c(4, 'get_state', ['B'])]]},
+]
+
+
 def corpus_worker(seed, per):
     _alarm(900)
     rng = random.Random(seed)
@@ -560,7 +583,7 @@ class C06(runner.Check):
             'machines declare events locally inside a compound state (processed in a nested scope) and are triggered by attribute '
             'and by name (model.trigger(name)); (default and user supplied '
             'machine_context lists containing a mutex, model_context lists, 1-3 shared models): 2-4 threads x 1-3 calls '
-            '(events by attribute and by model.trigger, add_transition, add_states, set_state, remove_model, add_model incl. '
+            '(events by attribute and by model.trigger, machine.dispatch, get_state, add_transition, add_states, set_state, remove_model, add_model incl. '
             're-adding a removed model with and without model_context, events on a currently unregistered model as unjudged steps, re-entrant '
             'calls from callbacks two levels deep, callbacks raising an Exception subclass / a custom BaseException / a KeyboardInterrupt subclass, callbacks that pickle / deep-copy the machine or a model mid-event), run under a deterministic controller; schedules: '
             'every schedule with at most 2 (thorough: 3) preemptions of 2-thread x <=2-call programs, and random '
@@ -585,13 +608,13 @@ class C06(runner.Check):
         ex.merge(runner.parallel(corpus_worker, [(rng.randrange(1 << 30), 40 if thorough else 10)])[0])
         # exhaustive (preemption-bounded) enumeration of small programs
         n_enum = 32 if thorough else 16
-        cap = 4000 if thorough else 700
+        cap = 4000 if thorough else 450
         payloads = [(rng.randrange(1 << 30), 3 if thorough else 2, cap) for _ in range(n_enum)]
         for r in runner.parallel(enum_worker, payloads):
             ex.merge(r)
         # random schedules of larger programs
         n_w = 48 if thorough else 16
-        per = 400 if thorough else 120
+        per = 400 if thorough else 100
         payloads = [(rng.randrange(1 << 30), per, 2, 4, 3) for _ in range(n_w)]
         for r in runner.parallel(random_worker, payloads):
             ex.merge(r)
@@ -640,7 +663,7 @@ class C06(runner.Check):
             'cases with unjudged events use unqueued machines (an unlocked event on a queued machine would share the queue with the other threads\' judged calls)',
             'a dynamic (removed / re-added) model is used by one thread only, through top-level calls, so that whether an event hits an unregistered model is determined by program order; racing add_model / remove_model against events on the same model from other threads is not generated',
             'the update of model_context_map inside add_model / remove_model has no yield point of its own: it is placed in the scheduling step of the call\'s last __enter__ (harness granularity), in the trace and in the model schedule',
-            'may_* helpers and dispatch are outside the statement\'s call list',
+            'may_* helpers are outside the statement\'s call list; machine.dispatch is judged as ONE machine-method call (machine contexts held once around the events of all models; the per-model events inside are re-entrant and enter nothing)',
             'LockedHierarchicalGraphMachine / LockedGraphMachine cannot be given model contexts at all (GraphMachine.add_model has no model_context parameter: TypeError) - recorded; the graph class is exercised with machine contexts only and without dynamic registration',
             'the hierarchical scope (_stack / scoped / states / events / prefix_path) is part of the opaque shared machine state of the Lean model (C06_shared_writes_in_window: written only inside the lock window); on the real classes a scope switch outside the window shows up through the serial-outcome oracle',
             'user supplied contexts do not raise in __enter__/__exit__ (a context manager whose __exit__ raises breaks the with-protocol it is part of; judged outside the statement, which speaks of raising CALLBACKS) and user mutexes are non re-entrant',
